@@ -34,17 +34,38 @@ P0 = z3.Int("rootrow5")              # ghost: the row of the unique root
 newof = z3.Function("newof", I, I)    # ghost: inverse of the returned index array (old row -> new id)
 
 
+def conc(n):
+    """the row count as a Python int when it is a concrete number (tables of a fixed size), else None"""
+    if isinstance(n, int) and not isinstance(n, bool):
+        return n
+    if z3.is_int_value(n):
+        return n.as_long()
+    return None
+
+
+def fa(vs, n, body):
+    """`forall vs in [0, n): body` -- a quantified formula for a symbolic n, the conjunction of its instances for a concrete one
+    (`body` must be trivially true outside the range: every caller guards it with R(..))"""
+    m = conc(n)
+    if m is None:
+        return z3.ForAll(vs, body)
+    import itertools
+
+    insts = [z3.substitute(body, *[(x, z3.IntVal(c)) for x, c in zip(vs, combo)]) for combo in itertools.product(range(m), repeat=len(vs))]
+    return z3.simplify(z3.And(*insts)) if insts else z3.BoolVal(True)
+
+
 def table_pre(A, P, n):
     """the input domain of C05 as formulas over the id / pid arrays (ghost symbols pp, posof, depth5, P0)"""
     a, b, p = z3.Int(fresh_name("a")), z3.Int(fresh_name("b")), z3.Int(fresh_name("p"))
     R = lambda t: z3.And(t >= 0, t < n)
     return [
         ("at-least-one-row", n >= 1),
-        ("ids-pairwise-distinct", z3.ForAll([a, b], z3.Implies(z3.And(R(a), R(b), a != b), sel(A, a) != sel(A, b)))),
-        ("minus-one-is-the-marker-never-an-id", z3.ForAll([p], z3.Implies(R(p), z3.And(sel(A, p) != -1, posof(sel(A, p)) == p)))),
-        ("exactly-one-root-row", z3.And(R(P0), sel(P, P0) == -1, z3.ForAll([p], z3.Implies(z3.And(R(p), p != P0), sel(P, p) != -1)))),
-        ("every-other-parent-id-names-a-row", z3.ForAll([p], z3.Implies(z3.And(R(p), p != P0), z3.And(R(pp(p)), sel(P, p) == sel(A, pp(p)))))),
-        ("every-row-reaches-the-root", z3.And(depth5(P0) == 0, z3.ForAll([p], z3.Implies(z3.And(R(p), p != P0), z3.And(depth5(p) == depth5(pp(p)) + 1, depth5(p) > 0))))),
+        ("ids-pairwise-distinct", fa([a, b], n, z3.Implies(z3.And(R(a), R(b), a != b), sel(A, a) != sel(A, b)))),
+        ("minus-one-is-the-marker-never-an-id", fa([p], n, z3.Implies(R(p), z3.And(sel(A, p) != -1, posof(sel(A, p)) == p)))),
+        ("exactly-one-root-row", z3.And(R(P0), sel(P, P0) == -1, fa([p], n, z3.Implies(z3.And(R(p), p != P0), sel(P, p) != -1)))),
+        ("every-other-parent-id-names-a-row", fa([p], n, z3.Implies(z3.And(R(p), p != P0), z3.And(R(pp(p)), sel(P, p) == sel(A, pp(p)))))),
+        ("every-row-reaches-the-root", z3.And(depth5(P0) == 0, fa([p], n, z3.Implies(z3.And(R(p), p != P0), z3.And(depth5(p) == depth5(pp(p)) + 1, depth5(p) > 0))))),
     ]
 
 
@@ -56,10 +77,23 @@ def pre_clauses(get):
     return out
 
 
-def setup(S):
-    n = S.int("n")
-    S.assume(n.z >= 0)
-    ids, pids = S.arr("int", n=n, name="old_ids"), S.arr("int", n=n, name="old_pids")
+import os as _os
+FIXED_SIZES = tuple(int(x) for x in _os.environ.get('C05_SIZES','1,2,3,4,5,6').split(','))
+FIXED_NOTE = ("second registration on tables of a fixed number of rows (contents symbolic): loops whose trip count follows from the row count "
+              "are executed, the clauses are decided at that size")
+
+
+def fixed_name(m):
+    return f"{m} rows, any ids in any row order"
+
+
+def setup(S, size=None):
+    if size is None:
+        n = S.int("n")
+        S.assume(n.z >= 0)
+    else:
+        n = Sym(z3.IntVal(size), "int")
+    ids, pids = S.arr("int", n=n if size is None else size, name="old_ids"), S.arr("int", n=n if size is None else size, name="old_pids")
     p = z3.Int("p5")
     ident = z3.Lambda([p], p)
     G = Obj(Ghost5, dict(slot=SArr(ident, n.z, "int", name="slot"), at=SArr(ident, n.z, "int", name="at"), stk_of=SArr(z3.K(I, z3.IntVal(-1)), n.z, "int", name="stk_of")))
@@ -170,30 +204,51 @@ GHOST = [
 
 
 # ---------------------------------------------------------------------------- postconditions
-def post(which):
+def view(a):
+    """a result column as an SArr: arrays of a concrete shape (`np.arange(6)`, an array built cell by cell) are read as a z3 array of that
+    length, so that one clause text serves tables of symbolic and of fixed size"""
+    from pyvc.values import NArr
+
+    if isinstance(a, NArr) and a.ndim == 1 and a.kind in ("int", "bool"):
+        arr = z3.K(I, z3.IntVal(0))
+        for j, x in enumerate(a.items):
+            arr = z3.Store(arr, j, to_z3(x, "int"))
+        return SArr(arr, len(a.items), "int", name="column")
+    return a
+
+
+def post(which, witness_free=False):
     def f(E, v, o):
         A, P, n, p0 = T(E, v)
         res = v["result"]
         (new_ids, new_pids), sigma = res
+        new_ids, new_pids, sigma = view(new_ids), view(new_pids), view(sigma)
+        if not all(isinstance(x, SArr) for x in (new_ids, new_pids, sigma)):
+            return False
         k, p = z3.Int(fresh_name("k")), z3.Int(fresh_name("p"))
         R = lambda t: z3.And(t >= 0, t < n)
         inv_sigma = z3.Lambda([p], newof(p))  # the ghost inverse of sigma
         if which == "lengths":
             return z3.And(new_ids.nz() == n, new_pids.nz() == n, sigma.nz() == n)
         if which == "one-to-one-between-old-and-new-nodes":
+            if witness_free:
+                # tables of a fixed size: "a one-to-one map of [0, n) onto itself" needs no inverse as a witness -- n pairwise different
+                # rows of [0, n) are all of them
+                return z3.And(fa([k], n, z3.Implies(R(k), R(sigma.get(k).z))),
+                              fa([k, p], n, z3.Implies(z3.And(R(k), R(p), k != p), sigma.get(k).z != sigma.get(p).z)))
             return z3.And(z3.ForAll([k], z3.Implies(R(k), z3.And(R(sigma.get(k).z), sel(inv_sigma, sigma.get(k).z) == k))),
                           z3.ForAll([p], z3.Implies(R(p), z3.And(R(sel(inv_sigma, p)), sigma.get(sel(inv_sigma, p)).z == p))))
         if which == "new-ids-are-0-to-n-1":
-            return z3.ForAll([k], z3.Implies(R(k), new_ids.get(k).z == k))
+            return fa([k], n, z3.Implies(R(k), new_ids.get(k).z == k))
         if which == "root-is-0":
             return z3.And(new_pids.get(0).z == -1, sigma.get(0).z == p0)
         if which == "parent-relation-preserved-and-parents-first":
-            return z3.ForAll([k], z3.Implies(z3.And(0 < k, k < n), z3.And(0 <= new_pids.get(k).z, new_pids.get(k).z < k, sigma.get(new_pids.get(k).z).z == pp(sigma.get(k).z))))
+            return fa([k], n, z3.Implies(z3.And(0 < k, k < n), z3.And(0 <= new_pids.get(k).z, new_pids.get(k).z < k, sigma.get(new_pids.get(k).z).z == pp(sigma.get(k).z))))
         if which == "parent-id-of-a-renumbered-node-is-the-id-of-the-row-behind-its-new-parent":
             # the same fact without ghost vocabulary, in the ids of the table itself: the row indices[k] names as its parent the id
             # carried by the row indices[new_pids[k]]; the row indices[0] is the root row
             return z3.And(z3.Implies(n > 0, sel(P, sigma.get(0).z) == -1),
-                          z3.ForAll([k], z3.Implies(z3.And(0 < k, k < n), sel(P, sigma.get(k).z) == sel(A, sigma.get(new_pids.get(k).z).z))))
+                          fa([k], n, z3.Implies(z3.And(0 < k, k < n), sel(P, sigma.get(k).z) == sel(A, sigma.get(new_pids.get(k).z).z))))
         raise KeyError(which)
 
     return f
@@ -261,6 +316,41 @@ def register(R: Registry):
         options=dict(models=ext_C05.MODELS, ghost_after=GHOST, hints={"exc/unexpected-AssertionError": single_root_hint}),
         notes="termination of the stack loop is not proved; numpy int32 treated as mathematical integers",
     )
+    # The same contract on tables of exactly 1 .. 6 rows (ids, parent ids and the row order stay symbolic: every legal table of that many
+    # rows).  Everything whose trip count follows from the row count executes there -- doubling rounds, unrolled loops, index-array
+    # gathers / scatters, a stable argsort -- so a body that is a NEW algorithm (for which no invariant can exist in advance) is decided:
+    # the clauses are quantifier-free at that size and a violated one is answered with a table.  While the body still IS the stack walk
+    # (a `while` loop that pops a work list: the loop the contract above carries invariants for) the twin would only repeat that proof
+    # six times over ("the fixed-size twin proves nothing the symbolic registration does not; it decides the converse"), so it is
+    # registered for bodies without that loop.
+    if not has_stack_walk(f"{NORM}:sort_nodes_impl"):
+        R.add(
+            f"{NORM}:sort_nodes_impl",
+            prop="C05",
+            variants={fixed_name(m): (lambda S, m=m: setup(S, size=m)) for m in FIXED_SIZES},
+            requires=pre_clauses(lambda v: (v["topology"][0].arr, v["topology"][1].arr, v["topology"][0].nz())),
+            returns=impl_result,
+            ensures=[(nm, post(nm, witness_free=True)) for nm in posts],
+            options=dict(models=ext_C05.MODELS, hints={"exc/unexpected-AssertionError": single_root_hint}, allow_symbolic_unroll=True),
+            notes=FIXED_NOTE,
+        )
+
+
+def has_stack_walk(key):
+    """does the CURRENT text of the function contain the stack walk -- a `while` loop whose body pops a work list?  (read from the source,
+    whatever the locals are called; on any doubt: yes, which leaves the symbolic-size contract alone in charge)"""
+    import ast as _ast
+
+    from pyvc import extract
+
+    try:
+        node, _, _ = extract.find(key)
+    except Exception:
+        return True
+    for w in _ast.walk(node):
+        if isinstance(w, _ast.While) and any(isinstance(c, _ast.Call) and isinstance(c.func, _ast.Attribute) and c.func.attr == "pop" for c in _ast.walk(w)):
+            return True
+    return False
 
 
 # =========================================================================== sort_nodes_ (table form), _sort_tree / sort_tree (tree form)
